@@ -86,26 +86,35 @@ def xlsx_case(rng, cid, known_ok=True):
     ridn = list(range(1, n + 1)); rng.shuffle(ridn)
     filen = list(range(1, n + 1)); rng.shuffle(filen)
     sheets, rels, parts, cells_of = [], [], [], {}
+    nonconv = 0
     attr_pool = [[], [], [("sheetId", "3")], [("xml:space", "preserve")],
                  [("sheetId", "12"), ("foo", "a&b<c>\"'")]]
     for i, (name, v, k) in enumerate(wb["sheets"]):
         rid = rng.choice(["rId%d", "rId%d", "R%dx", "id%d"]) % ridn[i]
         ts = rng.choice([0, 0, 1, 2])
-        fname = "sheet%d.xml" % filen[i]
-        target = ["", "/xl/", "xl/"][ts] + mg.KIND_DIR[k] + "/" + fname
-        rels.append((rid, target))
+        part = mg.gen_part(rng, k, filen[i], "xml", allow_xl_prefix=(ts != 0))
+        target = ["", "/xl/", "xl/"][ts] + part
+        talt = int(rng.random() < 0.3)
+        rtype = mg.KIND_TYPE[k][talt]
+        if rng.random() < 0.05 and part.startswith(mg.KIND_DIR[k] + "/"):
+            # outside the spec (xlsx_legal = 0): a Type that names no sheet kind; the reader
+            # falls back to the folder of the part — implementation vs model only
+            rtype = rng.choice(mg.OTHER_TYPES)
+        rels.append((rid, target, rtype))
         pre_ = rng.choice(attr_pool)
-        sheets.append(":".join([hxs(name), v, k, hx(rid), str(ts), hx(fname), str(rng.randrange(6)),
+        sheets.append(":".join([hxs(name), v, k, hx(rid), str(ts), hx(part), str(rng.randrange(6)),
                                 str(int(rng.random() < 0.5)), attrs_wire(pre_),
-                                attrs_wire(disjoint(rng, attr_pool[:4], pre_))]))
-        path = "xl/%s/%s" % (mg.KIND_DIR[k], fname)
+                                attrs_wire(disjoint(rng, attr_pool[:4], pre_)), str(talt)]))
+        path = "xl/" + part
+        nonconv += not part.startswith(mg.KIND_DIR[k] + "/")
         if k == "ws":
             cells = mg.sheet_cells(rng)
             cells_of[name] = cells
             parts.append((path, mg.xlsx_sheet_xml(cells)))
         else:
             parts.append((path, mg.OTHER_PART_XML[k]))
-    rels += [("rIdS", "styles.xml"), ("rIdT", "theme/theme1.xml")][:rng.randrange(3)]
+    rels += [("rIdS", "styles.xml", mg.NS_REL + "/styles"),
+             ("rIdT", "theme/theme1.xml", mg.NS_REL + "/theme")][:rng.randrange(3)]
     rng.shuffle(rels)
     names = []
     npool = [[], [], [("localSheetId", "0")], [("hidden", "1")], [("comment", "x<y")]]
@@ -126,10 +135,10 @@ def xlsx_case(rng, cid, known_ok=True):
             attrs_wire(rng.choice([[], [("defaultThemeVersion", "124226")],
                                    [("codeName", "ThisWorkbook"), ("filterPrivacy", "1")]])),
             wire(junk_events_xlsx(rng, pfx)) or "-",
-            lst(["%s:%s" % (hx(a), hx(b)) for a, b in rels]),
+            lst(["%s:%s:%s" % (hx(a), hx(b), hxs(t)) for a, b, t in rels]),
             wire(rng.choice([[], [T("\n")], [O]])) or "-", lst(sheets), lst(names)]
     return {"id": cid, "fmt": "xlsx", "wb": wb, "line": "%s\tmeta\txlsx\t%s" % (cid, "\t".join(args)),
-            "parts": parts, "cells": cells_of}
+            "parts": parts, "cells": cells_of, "nonconv": nonconv}
 
 
 def xlsx_build(case, ans, rng, d):
@@ -172,16 +181,21 @@ def xlsb_case(rng, cid):
     ridn = list(range(1, n + 1)); rng.shuffle(ridn)
     filen = list(range(1, n + 1)); rng.shuffle(filen)
     sheets, rels, parts, cells_of = [], [], [], {}
+    nonconv = 0
     for i, (name, v, k) in enumerate(wb["sheets"]):
         rid = rng.choice(["rId%d", "rId%d", "R%dx", "é%d"]) % ridn[i]
-        fname = "sheet%d.bin" % filen[i]
-        rels.append((rid, mg.KIND_DIR[k] + "/" + fname))
-        sheets.append(":".join([hxs(name), v, k, hx(rid), hx(fname), str(rng.choice([i + 1, 7 * i + 3, 4294967295]))]))
+        part = mg.gen_part(rng, k, filen[i], "bin", allow_xl_prefix=True)
+        talt = int(rng.random() < 0.3)
+        rels.append((rid, part, mg.KIND_TYPE[k][talt]))
+        sheets.append(":".join([hxs(name), v, k, hx(rid), hx(part), str(rng.choice([i + 1, 7 * i + 3, 4294967295])),
+                                str(talt)]))
         cells = mg.sheet_cells(rng)
         if k == "ws":
             cells_of[name] = cells
-        parts.append(("xl/%s/%s" % (mg.KIND_DIR[k], fname), mg.xlsb_sheet_bin(cells)))
-    rels += [("rIdS", "styles.bin"), ("rIdT", "theme/theme1.xml")][:rng.randrange(3)]
+        parts.append(("xl/" + part, mg.xlsb_sheet_bin(cells)))
+        nonconv += not part.startswith(mg.KIND_DIR[k] + "/")
+    rels += [("rIdS", "styles.bin", mg.NS_REL + "/styles"),
+             ("rIdT", "theme/theme1.xml", mg.NS_REL + "/theme")][:rng.randrange(3)]
     rng.shuffle(rels)
     nxti = rng.choice([0, n, n, 2 * n]) if n else 0
     xtis = [(0, j, j) for j in (rng.randrange(n) for _ in range(nxti))]
@@ -200,10 +214,10 @@ def xlsb_case(rng, cid):
         tail = b"\x02\x00\x00" + mg.brec(0x0084)
     args = [str(int(wb["d1904"])), str(int(rng.random() < 0.5)), str(rng.choice([0, 0, 1, 64, 127])),
             (struct_pack_prop(rng)).hex() or "-", recs_wire(junk1), recs_wire(junk2), str(endt),
-            tail.hex(), lst(["%s:%s" % (hx(a), hx(b)) for a, b in rels]), lst(sheets),
+            tail.hex(), lst(["%s:%s:%s" % (hx(a), hx(b), hxs(t)) for a, b, t in rels]), lst(sheets),
             lst(["%d:%d:%d" % x for x in xtis]), lst(names)]
     return {"id": cid, "fmt": "xlsb", "wb": wb, "line": "%s\tmeta\txlsb\t%s" % (cid, "\t".join(args)),
-            "parts": parts, "cells": cells_of}
+            "parts": parts, "cells": cells_of, "nonconv": nonconv}
 
 
 def struct_pack_prop(rng):
@@ -238,7 +252,8 @@ def xls_case(rng, cid, known_ok=True):
         tail += mg.xls_sheet_substream(cells, XLS_DT[k])
     for i, (name, v, k) in enumerate(wb["sheets"]):
         wide = 1 if (any(ord(c) > 255 for c in name) or rng.random() < 0.3) else 0
-        sheets.append(":".join([hxs(name), v, k, str(pos[i]), str(wide), str(rng.choice([0, 0, 1, 3]))]))
+        sheets.append(":".join([hxs(name), v, k, str(pos[i]), str(wide),
+                                str(rng.choice([0, 0, 1, 3, 16, 32, 63, rng.randrange(64)]))]))
     nxti = rng.choice([n, n, 2 * n]) if n else 0
     xtis = [(0, j, j) for j in (rng.randrange(n) for _ in range(nxti))]
     names = []
@@ -434,6 +449,8 @@ def run_structured(ctx, cases, tag):
         ctx.count("%s:date1904=%d" % (fmt, int(c["wb"]["d1904"])))
         for n, v, k in c["wb"]["sheets"]:
             ctx.count("%s:%s/%s" % (fmt, v, k))
+        if c.get("nonconv"):
+            ctx.count("%s:sheet-part-outside-its-conventional-folder" % fmt)
         if len(c["wb"]["sheets"]) >= 2 or c["wb"]["dnames"]:
             ctx.nontrivial(c["line"].split("\t", 2)[2])
         ctx.sample({"fmt": fmt, "sheets": [list(x) for x in c["wb"]["sheets"]][:3], "impl_equals_model": same(impl, m)})
@@ -521,10 +538,12 @@ def perturb_events(rng, evs):
             elif rr < 0.7:
                 a[j] = (a[j][0], rng.choice(["", "bogus", "Visible", "2", "TRUE", "rId99", "xl/other/x.xml",
                                               "worksheets", "../worksheets/sheet1.xml", "hidden", "veryHidden",
-                                              "true", "false", "0", a[j][1] + "x"]))
+                                              "true", "false", "0", a[j][1] + "x",
+                                              mg.KIND_TYPE["chart"][0], mg.KIND_TYPE["mac"][1],
+                                              mg.KIND_TYPE["ws"][1], mg.NS_REL + "/styles"]))
             else:
                 a[j] = (rng.choice(["name", "state", "r:id", "id", "table:name", "table:display", "Id", "Target",
-                                    "table:style-name", "date1904", "style:name", "relationships:id"]), a[j][1])
+                                    "Type", "type", "table:style-name", "date1904", "style:name", "relationships:id"]), a[j][1])
                 if len(set(x for x, _ in a)) != len(a) or \
                    (mg.is_raw_attr(a[j][0]) and any(ch in a[j][1] for ch in "&<>\"'")):
                     a = list(e[2])
